@@ -321,6 +321,8 @@ fn start_scenario(n: usize) {
 //@ ob: C08.O3
 //@ tier: thorough
 //@ cap: 1800
+//@ rss: 6
+//@ time: 478
 //@ standins: tracing
 //@ also: C06
 //@ desc: start() through the real KrpcSocket::request (send stubbed by a ghost log): exactly one request per token-bearing node, addressed to that node and carrying that node's own token; none to token-less nodes; extra nodes are addressed too; and C06.O3a: Ok(()) implies the put has a request in flight (otherwise the caller would wait forever) -- start fails with an error when nothing could be sent
